@@ -118,11 +118,11 @@ def run(ctx):
             n = min(left, rnd.randrange(1, 9) if kind == 0 else rnd.randrange(200, max(201, total // 3)))
             parts.append(rb(n) if kind == 0 else bytes([rnd.choice((0, 0, 255, 128, rnd.randrange(256)))]) * n); left -= n
         return b''.join(parts)
-    sizes = [4097, 5000, 65535, 65537, (1 << 20) + 5] + ([(1 << 20) - 1, 1 << 20, 3 * (1 << 19) + 7, 100003] if big else [])
+    sizes = [4096, 4097, 5000, 8192, 12288, 65535, 65536, 65537, 1 << 20, (1 << 20) + 5] + ([(1 << 20) - 1, 3 * (1 << 19), 3 * (1 << 19) + 7, 100003, 16384, 20480] if big else [])      # round sizes (whole pages / chunks) and their neighbours
     for n in sizes:
         d = longdata(n)
         rec(dict(op='crc32r', runs=rle(d), datalen=n), lambda d=d: C.crc32(d), lambda r: W(r, 2)); ctx.mark(('crc32 long', n))
-    for width, P, n in ((16, 0xA001, 70001), (64, 0xC96C5795D7870F42, 9000), (8, 0x8C, 4099), (33, rnd.getrandbits(33) | (1 << 32), 12345)):
+    for width, P, n in ((16, 0xA001, 70001), (64, 0xC96C5795D7870F42, 9000), (8, 0x8C, 4099), (33, rnd.getrandbits(33) | (1 << 32), 12345), (16, 0xA001, 8192), (40, rnd.getrandbits(40) | (1 << 39), 65536)):
         nl = (width + 15) // 16
         try: tab = C.crc_table(Bits(P, width))
         except Exception as ex: ctx.violation('crc.crc_table', 'raises:' + type(ex).__name__, dict(width=width), dict(P=hex(P))); continue
@@ -136,10 +136,10 @@ def run(ctx):
         try: e.update(render(fn()))
         except Exception as ex: e['raised'] = type(ex).__name__
         ev.append(e)
-    for n in [4100, 65536 + 9, (1 << 20) + 3] + ([(1 << 20), 200000] if big else []):
+    for n in [4100, 8196, 65536 + 4, 65536 + 9, (1 << 20) + 4] + ([(1 << 20), 200000, 12292] if big else []):                          # the data in front of the window is a whole number of pages, or not
         d = longdata(n); t = rnd.getrandbits(32)
         fixr(d, n - 4, t, lambda d=d, t=t: C.crc32_fix(d, t)); ctx.mark(('fix long', n))
-        for pos in sorted({0, n // 2, n - 4} if n < (1 << 20) or big else {n // 3}):
+        for pos in sorted(x for x in ({0, 4096, 8192, n // 2, n - 4} if n < (1 << 20) or big else {n // 3, 1 << 19}) if 0 <= x <= n - 4):
             fixr(d, pos, t ^ pos, lambda d=d, t=t, pos=pos: C.crc32_fix_pos(d, pos, t ^ pos)); ctx.mark(('fixpos long', n, pos))
     ctx.exhaustive_subspaces.append('crc32_fix_pos at every position of the short data strings x target classes {0, 1, 2^31, 2^32-1, ...}')
     ctx.evaluations = len(ev); ctx.sample(ev[5]); ctx.sample(ev[-1])
